@@ -193,6 +193,9 @@ pub struct Stats {
     pub offloaded_bytes: u64,
     pub closed_on_disk_seen: u64,
     pub closed_in_mem_seen: u64,
+    pub disk_exact: u64,
+    pub disk_bounded: u64,
+    pub abstract_states: std::collections::BTreeSet<u32>,
 }
 
 pub struct Driver<const N: usize> {
@@ -203,6 +206,9 @@ pub struct Driver<const N: usize> {
     pub hist_id: u64,
     pub step: usize,
     pub stats: Stats,
+    /// true right after a completed Dump (free_excess_resources + flushing barrier)
+    pub quiescent: bool,
+    pub offloaded: bool,
     next_val: u64,
 }
 
@@ -258,7 +264,7 @@ pub fn builder_for(cfg: &Cfg, dir: &Path) -> Builder {
 impl<const N: usize> Driver<N> {
     pub fn new(dir: PathBuf, cfg: Cfg, hist_id: u64) -> Self {
         let model = Model::new(cfg.allow_dup);
-        Driver { dir, cfg, storage: None, model, hist_id, step: 0, stats: Stats::default(), next_val: 1 }
+        Driver { dir, cfg, storage: None, model, hist_id, step: 0, stats: Stats::default(), quiescent: false, offloaded: false, next_val: 1 }
     }
 
     pub fn key(&self, k: u16) -> ArrayKey<N> {
@@ -308,6 +314,7 @@ impl<const N: usize> Driver<N> {
     pub async fn step(&mut self, op: &Op) -> Result<(), Mismatch> {
         self.step += 1;
         self.stats.steps += 1;
+        self.quiescent = false;
         match op {
             Op::Put { k, ts, meta, size } => {
                 let val = self.fresh_val();
@@ -391,6 +398,7 @@ impl<const N: usize> Driver<N> {
             Op::Dump => {
                 let _ = self.st().free_excess_resources().await;
                 self.barrier(true).await?;
+                self.quiescent = true;
             }
             Op::DumpNoWait => {
                 let _ = self.st().free_excess_resources().await;
@@ -399,6 +407,9 @@ impl<const N: usize> Driver<N> {
                 let s = self.storage.as_mut().expect("open");
                 let freed = s.offload_buffer(*needed as usize, *level as usize).await;
                 self.stats.offloaded_bytes += freed as u64;
+                if freed > 0 {
+                    self.offloaded = true;
+                }
             }
             Op::Fsync => {
                 if let Err(e) = self.st().fsyncdata().await {
@@ -420,6 +431,7 @@ impl<const N: usize> Driver<N> {
                 }
                 self.model.restart(*lazy);
                 self.stats.restarts += 1;
+                self.offloaded = false;
                 self.open(*lazy).await?;
             }
         }
@@ -489,7 +501,19 @@ impl<const N: usize> Driver<N> {
         false
     }
 
+    /// (active present, active blob has an index file, closed blobs (cap 4), closed blobs with index file (cap 4), filter off-loaded)
+    pub fn abstract_state(&self) -> u32 {
+        let idx = |id: usize| self.dir.join(format!("t.{}.index", id)).exists();
+        let a = self.model.active.is_some() as u32;
+        let ai = self.model.active.map(|a| idx(a)).unwrap_or(false) as u32;
+        let c = self.model.closed.len().min(4) as u32;
+        let ci = self.model.closed.iter().filter(|c| idx(**c)).count().min(4) as u32;
+        a | (ai << 1) | (c << 2) | (ci << 5) | ((self.offloaded as u32) << 8)
+    }
+
     pub async fn check(&mut self, surface: u32) -> Result<(), Mismatch> {
+        let st = self.abstract_state();
+        self.stats.abstract_states.insert(st);
         let n = self.cfg.n_keys;
         for k in 0..(n + 2) {
             if k < n {
@@ -734,6 +758,16 @@ impl<const N: usize> Driver<N> {
         self.stats.compared += 1;
         let du = self.st().disk_used().await;
         let (blobs, all) = self.dir_sizes();
+        let active_has_index_file = self.model.active.map(|a| self.dir.join(format!("t.{}.index", a)).exists()).unwrap_or(false);
+        if self.quiescent && !active_has_index_file {
+            // quiescent point: every closed blob was dumped, the active blob has no index file
+            self.stats.disk_exact += 1;
+            if du != all {
+                return Err(self.mm(Class::DiskUsed, "disk_used/quiescent-not-equal-to-files", format!("disk_used() = {} at a quiescent point, blob+index bytes on disk {}", du, all)));
+            }
+            return Ok(());
+        }
+        self.stats.disk_bounded += 1;
         if du < blobs || du > all {
             let rel = if du < blobs { "below-blob-bytes" } else { "above-all-files" };
             return Err(self.mm(Class::DiskUsed, format!("disk_used/{}", rel), format!("disk_used() = {}, blob bytes on disk {}, blob+index bytes {}", du, blobs, all)));
